@@ -64,6 +64,13 @@ class InjectedBase(BaseException):
     pass
 
 
+class OtherLibrary:
+    """namespace of a 'second library' whose exception class has the SAME __name__ as InjectedError"""
+
+    class InjectedError(Exception):
+        pass
+
+
 class Unpicklable(Exception):
     def __init__(self, msg):
         super().__init__(msg)
@@ -75,6 +82,8 @@ def make_exc(kind, msg):
         return ValueError(msg)
     if kind == "custom":
         return InjectedError(msg, 7)
+    if kind == "samename":
+        return OtherLibrary.InjectedError(msg)
     if kind == "base":
         return InjectedBase(msg)
     if kind == "keyboard":
@@ -90,6 +99,7 @@ EXC_TYPES = {
     "ValueError": ValueError,
     "custom": InjectedError,
     "base": InjectedBase,
+    "samename": OtherLibrary.InjectedError,
     "keyboard": KeyboardInterrupt,
     "unpicklable": Unpicklable,
     "ZeroDivisionError": ZeroDivisionError,
